@@ -22,8 +22,11 @@ VARIABLES tid, l,
           holds,     \* holds[t]: instance whose attribute t holds (0 = none)
           seen,      \* seen[t]: the value that was cached when t took the attribute (0 = none:
                      \*          t holds a placeholder)
-          everDel    \* everDel[i]: the attribute of instance i was deleted at some point
-vars == <<tid, l, cached, runInst, runOk, running, holds, seen, everDel>>
+          epoch,     \* epoch[i]: number of deletions of the attribute of instance i so far
+          runEpoch,  \* runEpoch[r]: the epoch in which run r started
+          runner,    \* runner[r]: the task whose await runs the getter
+          mustFail   \* mustFail[t]: the getter run by t's await failed -- the await has to raise
+vars == <<tid, l, cached, runInst, runOk, running, holds, seen, epoch, runEpoch, runner, mustFail>>
 
 Cfg == Traces[tid].cfg
 Ev == Traces[tid].ev
@@ -37,52 +40,57 @@ Init == /\ tid \in 1..NT /\ l = 0
         /\ runInst = <<>> /\ runOk = <<>> /\ running = {}
         /\ holds = [t \in 1..Traces[tid].cfg.tasks |-> 0]
         /\ seen = [t \in 1..Traces[tid].cfg.tasks |-> 0]
-        /\ everDel = [i \in 1..Traces[tid].cfg.insts |-> FALSE]
+        /\ epoch = [i \in 1..Traces[tid].cfg.insts |-> 0] /\ runEpoch = <<>> /\ runner = <<>>
+        /\ mustFail = [t \in 1..Traces[tid].cfg.tasks |-> FALSE]
         /\ TLCSet(Reg(tid), 0)
 
 Access == /\ Is("access") /\ holds[E.t] = 0
           /\ holds' = [holds EXCEPT ![E.t] = E.i]
           /\ seen' = [seen EXCEPT ![E.t] = cached[E.i]]
-          /\ UNCHANGED <<cached, runInst, runOk, running, everDel>> /\ Consume
+          /\ UNCHANGED <<cached, runInst, runOk, running, epoch, runEpoch, runner, mustFail>> /\ Consume
 
-\* the getter runs only when no value is cached; with a lock (and nothing deleted) never
-\* two runs for one instance at once
+\* the getter runs only when no value is cached; with a lock never two runs at once for the
+\* same instance and the same epoch (a deletion starts a new epoch: a run that was already
+\* under way may overlap with the recomputation, but "at most once per cached value")
 GStart == /\ Is("gstart") /\ E.r = Len(runInst) + 1
           /\ cached[E.i] = 0
-          /\ (Cfg.lock /\ ~everDel[E.i]) => \A r \in running : runInst[r] # E.i
+          /\ Cfg.lock => \A r \in running : ~(runInst[r] = E.i /\ runEpoch[r] = epoch[E.i])
           /\ runInst' = Append(runInst, E.i) /\ runOk' = Append(runOk, FALSE)
+          /\ runEpoch' = Append(runEpoch, epoch[E.i]) /\ runner' = Append(runner, E.t)
           /\ running' = running \cup {E.r}
-          /\ UNCHANGED <<cached, holds, seen, everDel>> /\ Consume
+          /\ UNCHANGED <<cached, holds, seen, epoch, mustFail>> /\ Consume
 
 \* a run that returns caches its value; a failed or cancelled one caches nothing
 GEnd == /\ Is("gend") /\ E.r \in running
         /\ running' = running \ {E.r}
         /\ runOk' = [runOk EXCEPT ![E.r] = E.ok]
         /\ cached' = IF E.ok THEN [cached EXCEPT ![runInst[E.r]] = E.r] ELSE cached
-        /\ UNCHANGED <<runInst, holds, seen, everDel>> /\ Consume
+        /\ mustFail' = IF E.ok \/ runner[E.r] = 0 THEN mustFail ELSE [mustFail EXCEPT ![runner[E.r]] = TRUE]
+        /\ UNCHANGED <<runInst, holds, seen, epoch, runEpoch, runner>> /\ Consume
 
 \* an await returns a value some getter run of that instance returned: the value that
 \* was cached when the attribute was taken, else (a placeholder was taken) the value
 \* cached when the await completes
-Got == /\ Is("got") /\ holds[E.t] = E.i
+Got == /\ Is("got") /\ holds[E.t] = E.i /\ ~mustFail[E.t]     \* a failed getter surfaces to its awaiter
        /\ E.v \in 1..Len(runInst) /\ runInst[E.v] = E.i /\ runOk[E.v]
        /\ E.v = (IF seen[E.t] # 0 THEN seen[E.t] ELSE cached[E.i])
        /\ holds' = [holds EXCEPT ![E.t] = 0]
-       /\ UNCHANGED <<cached, runInst, runOk, running, seen, everDel>> /\ Consume
+       /\ UNCHANGED <<cached, runInst, runOk, running, seen, epoch, runEpoch, runner, mustFail>> /\ Consume
 
 Err == /\ Is("err") /\ holds[E.t] # 0 /\ E.same
        /\ holds' = [holds EXCEPT ![E.t] = 0]
-       /\ UNCHANGED <<cached, runInst, runOk, running, seen, everDel>> /\ Consume
+       /\ mustFail' = [mustFail EXCEPT ![E.t] = FALSE]
+       /\ UNCHANGED <<cached, runInst, runOk, running, seen, epoch, runEpoch, runner>> /\ Consume
 
 DelE == /\ Is("del")
         /\ cached' = [cached EXCEPT ![E.i] = 0]
-        /\ everDel' = [everDel EXCEPT ![E.i] = TRUE]
-        /\ UNCHANGED <<runInst, runOk, running, holds, seen>> /\ Consume
+        /\ epoch' = [epoch EXCEPT ![E.i] = @ + 1]
+        /\ UNCHANGED <<runInst, runOk, running, holds, seen, runEpoch, runner, mustFail>> /\ Consume
 
 \* at rest no lock is held and nothing is computing; the attribute shows the cached value
 Quiesce == /\ Is("quiesce") /\ running = {} /\ E.held = 0
            /\ \A i \in DOMAIN cached : E.slots[i] = cached[i]
-           /\ UNCHANGED <<cached, runInst, runOk, running, holds, seen, everDel>> /\ Consume
+           /\ UNCHANGED <<cached, runInst, runOk, running, holds, seen, epoch, runEpoch, runner, mustFail>> /\ Consume
 
 Next == Access \/ GStart \/ GEnd \/ Got \/ Err \/ DelE \/ Quiesce
 Spec == Init /\ [][Next]_vars
